@@ -1168,9 +1168,16 @@ impl TDigestView<'_> {
         }
         let last_weight = self.centroids[num_centroids - 1].weight();
         if last_weight > 1. && (centroids_weight - weight <= last_weight / 2.) {
+            let span = (last_weight / 2.) - 1.;
+            if span <= 0. {
+                // A last centroid of weight 2: the zone is the single point
+                // weight == centroids_weight - 1 (one sample below the top), where the
+                // interpolation below would evaluate 0 / 0.
+                return Some(self.max);
+            }
             return Some(
                 self.max
-                    - (((centroids_weight - weight - 1.) / ((last_weight / 2.) - 1.))
+                    - (((centroids_weight - weight - 1.) / span)
                         * (self.max - self.centroids[num_centroids - 1].mean)),
             );
         }
